@@ -548,6 +548,157 @@ func runC17(r *Report) {
 		}
 	}
 
+	// a mapping's own positive limit is always applied: in the quota decision, once the mapping's
+	// MaxConnections is known positive, no "allow" (nil) return is reached without comparing the count
+	// with a limit - whatever else the function consults on the way (a failed user-quota lookup may
+	// waive the user quota, never the mapping's own limit)
+	for _, f := range r.P.FuncsIn("internal/client/mapping") {
+		if f.Parent() != nil || len(f.Blocks) == 0 || f.Signature.Results().Len() != 1 || f.Signature.Results().At(0).Type().String() != "error" {
+			continue
+		}
+		var own ssa.Value // the load of MappingConfig.MaxConnections
+		Instrs(f, func(in ssa.Instruction) {
+			if u, ok := in.(*ssa.UnOp); ok && u.Op == token.MUL && own == nil {
+				if t, fld, _, ok := FieldOf(u); ok && t == "MappingConfig" && fld == "MaxConnections" {
+					own = u
+				}
+			}
+		})
+		if own == nil {
+			continue
+		}
+		var count *ssa.Parameter
+		for _, p := range f.Params {
+			if b, ok := p.Type().Underlying().(*types.Basic); ok && b.Info()&types.IsInteger != 0 {
+				count = p
+			}
+		}
+		if count == nil {
+			continue
+		}
+		isOwn := func(v ssa.Value, env map[*ssa.Phi]ssa.Value) bool {
+			v = stripValue(v)
+			if v == own || sameExpr(v, own) {
+				return true
+			}
+			if ph, ok := v.(*ssa.Phi); ok {
+				if in, ok := env[ph]; ok {
+					in = stripValue(in)
+					return in == own || sameExpr(in, own)
+				}
+			}
+			return false
+		}
+		type start struct{ b, pred *ssa.BasicBlock }
+		compares := func(in ssa.Instruction) bool {
+			bo, ok := in.(*ssa.BinOp)
+			if !ok {
+				return false
+			}
+			switch bo.Op {
+			case token.GTR, token.GEQ, token.LSS, token.LEQ:
+			default:
+				return false
+			}
+			for _, side := range []ssa.Value{bo.X, bo.Y} {
+				for _, rt := range Origins(side) {
+					if rt.V == ssa.Value(count) {
+						return true
+					}
+				}
+			}
+			return false
+		}
+		var bad ssa.Instruction
+		seen := map[start]bool{}
+		type pfact struct {
+			bo  *ssa.BinOp
+			pol bool
+		}
+		// status of the mapping's own limit on the current path: 0 unknown, 1 positive, -1 not positive
+		var walk func(b, pred *ssa.BasicBlock, env map[*ssa.Phi]ssa.Value, path []pfact, status int)
+		walk = func(b, pred *ssa.BasicBlock, env map[*ssa.Phi]ssa.Value, path []pfact, status int) {
+			if bad != nil {
+				return
+			}
+			if len(path) > 24 || (seen[start{b, pred}] && len(path) > 12) {
+				return
+			}
+			seen[start{b, pred}] = true
+			env2 := map[*ssa.Phi]ssa.Value{}
+			for k, v := range env {
+				env2[k] = v
+			}
+			for _, in := range b.Instrs {
+				if ph, ok := in.(*ssa.Phi); ok {
+					for i, p := range b.Preds {
+						if p == pred && i < len(ph.Edges) {
+							env2[ph] = ph.Edges[i]
+						}
+					}
+					continue
+				}
+				if compares(in) {
+					return // the count is compared with a limit on this path
+				}
+				if ret, ok := in.(*ssa.Return); ok {
+					if RetErrKind(ret) == "nil" && status >= 0 {
+						bad = ret // allowed without a comparison although the mapping may have its own limit
+					}
+					return
+				}
+			}
+			iff, isIf := b.Instrs[len(b.Instrs)-1].(*ssa.If)
+			for si, sb := range b.Succs {
+				np := path
+				status2 := status
+				if isIf {
+					c, pol := normCond(iff.Cond, si == 0)
+					if bo, ok := c.(*ssa.BinOp); ok {
+						ns := status
+						if k, isK := ConstInt(bo.Y); isK && k == 0 && isOwn(bo.X, env2) && (bo.Op == token.GTR || bo.Op == token.LEQ) {
+							positive := (bo.Op == token.GTR && pol) || (bo.Op == token.LEQ && !pol)
+							if (positive && status < 0) || (!positive && status > 0) {
+								continue // contradicts what this path knows about the mapping's own limit
+							}
+							if positive {
+								ns = 1
+							} else {
+								ns = -1
+							}
+						}
+						status2 = ns
+						// the same test on a value this path has already decided (a phi that received a value
+						// tested earlier: `if q > 0 && q < m { m = q }; if m > 0`)
+						x := stripValue(bo.X)
+						if ph, isPhi := x.(*ssa.Phi); isPhi {
+							if in, ok := env2[ph]; ok {
+								x = stripValue(in)
+							}
+						}
+						contradicted := false
+						for _, pf := range path {
+							if pf.bo.Op == bo.Op && (stripValue(pf.bo.X) == x || sameExpr(stripValue(pf.bo.X), x)) && (pf.bo.Y == bo.Y || sameExpr(pf.bo.Y, bo.Y)) && pf.pol != pol {
+								contradicted = true
+							}
+						}
+						if contradicted {
+							continue
+						}
+						np = append(append([]pfact{}, path...), pfact{bo, pol})
+					}
+				}
+				walk(sb, b, env2, np, status2)
+			}
+		}
+		walk(f.Blocks[0], nil, nil, nil, 0)
+		pos := f.Pos()
+		if bad != nil {
+			pos = bad.Pos()
+		}
+		r.Ob("R-C17-1", pos, bad == nil, "an allowing (nil) return that has not compared the connection count with a limit lies only where the mapping is known to have no positive limit of its own", r.P.FuncName(f), "own-limit-always-applied")
+	}
+
 	// ---- R-C17-3 eviction at the control cap -----------------------------------------------------
 	if rg := r.need("R-C17-3", sessPkg, "ClientRegistry.Register"); rg != nil {
 		ls := ComputeLockSets(rg, nil)
